@@ -1,0 +1,34 @@
+//go:build verif && amd64 && go1.17 && !go1.27
+// +build verif,amd64,go1.17,!go1.27
+
+package verifx
+
+import (
+	"reflect"
+
+	"github.com/bytedance/sonic/internal/decoder/jitdec"
+	"github.com/bytedance/sonic/internal/encoder"
+)
+
+// JitTable describes one generated function as the loader receives it.
+type JitTable struct {
+	Kind      string
+	TextSize  int
+	PCs       []uint32
+	Vals      []int32
+	ArgPtrs   []bool
+	LocalPtrs []bool
+	ArgSize   int
+}
+
+// DecoderTable assembles the JIT decoder of vt without loading it.
+func DecoderTable(vt reflect.Type) (JitTable, error) {
+	size, pcs, vals, ap, lp, as, _, err := jitdec.VerifExportPcsp(vt)
+	return JitTable{"decoder", size, pcs, vals, ap, lp, as}, err
+}
+
+// EncoderTable assembles the JIT encoder of vt without loading it.
+func EncoderTable(vt reflect.Type, pv bool) (JitTable, error) {
+	size, pcs, vals, ap, lp, as, err := encoder.VerifExportPcsp(vt, pv)
+	return JitTable{"encoder", size, pcs, vals, ap, lp, as}, err
+}
